@@ -360,6 +360,14 @@ func (g *Gen) fill(v reflect.Value, depth int, mapKey bool) {
 		for i := 0; i < t.NumField(); i++ {
 			g.fill(field(v, i), depth+1, mapKey)
 		}
+	case reflect.UnsafePointer:
+		// an opaque handle: nil or the address of a fresh word (never followed by the monitors)
+		if g.Mode == GenEmpty || (g.Mode == GenRandom && g.R.Intn(3) == 0) {
+			return
+		}
+		x := new(int64)
+		*x = g.nextLeaf()
+		v.SetPointer(unsafe.Pointer(x))
 	case reflect.Interface, reflect.Func, reflect.Chan:
 		if g.nilHere(depth) {
 			return
